@@ -706,3 +706,34 @@ func (p *Program) ownerFunc(fn *ssa.Function) *ssa.Function {
 	}
 	return fn
 }
+
+// wrapsKey reports whether v is, or wraps through fmt.Errorf("…%w…", …) on this path, a value whose key satisfies ok.
+func wrapsKey(pa *Path, v AV, ok func(key string) bool) bool {
+	seen := map[string]bool{}
+	var rec func(k string) bool
+	rec = func(k string) bool {
+		if seen[k] {
+			return false
+		}
+		seen[k] = true
+		if ok(k) {
+			return true
+		}
+		for _, e := range pa.Calls("fmt.Errorf") {
+			if e.Res.Key() != k {
+				continue
+			}
+			f, _ := avStr(e.Args[0])
+			if !strings.Contains(f, "%w") {
+				continue
+			}
+			for _, a := range varargsOf(pa, e) {
+				if rec(stripConvAll(a).Key()) {
+					return true
+				}
+			}
+		}
+		return false
+	}
+	return rec(stripConvAll(v).Key())
+}
